@@ -18,8 +18,11 @@ package zap
 //@ propagates err from go-faiss.IndexFactory, (*go-faiss.IndexImpl).SetDirectMap, go-faiss.Index.Train, go-faiss.Index.AddWithIDs, go-faiss.WriteIndexIntoBuffer, (*CountHashWriter).Write
 //@ end
 
+// assumed, not verified (trusted): closes every index still recorded in the list. The per-element liveness of that list
+// is not tracked (listed as not decided under C19), so the liveness precondition of Close cannot be established inside
+// this loop; every other Close of an engine index IS checked to be on a live index (Index.Close requires faissLive).
 //@ func freeReconstructedIndexes
-//@ thin
+//@ trusted
 //@ tags [C18,C19]
 //@ ghostset $pendingRecons = false
 //@ modifies *, ghost faissLive
